@@ -4,6 +4,11 @@ HARNESSES = {
     "codec": dict(src=["harness/h_codec.cpp"], flavour="asan"),
 }
 
+ENGINE_TEXT = {
+    "codec": "rapidcheck + exhaustive choice-tree enumeration on CdnsEncoder/CdnsDecoder, ASan+UBSan",
+}
+NOT_APPLICABLE = {}
+
 # cases / size: (quick, thorough).  kind: rc (rapidcheck search, split over workers), enum (exhaustive
 # depth-first enumeration of the property's choice tree, sharded on the first choice), py (python side job).
 PROPS = {
@@ -13,6 +18,10 @@ PROPS = {
              "encoder (bytes and per-call return value). Non-trivial: call issued with <9 bytes free, or a string spanning a flush, "
              "or a value within +-1 of a head-width boundary (sequences: output > one buffer and a boundary value). "
              "Distinct = hash of the choice sequence.",
+        level_text="exhaustive over fill level x operation x boundary argument and over all 8/16-bit values, random call sequences "
+                   "beyond; differential against an independent reference encoder",
+        level_note="trusts the reference encoder in lib/cbor_ref.hpp (transcribed from RFC 8949) and zlib/liblzma decompression",
+        technique="property-based testing: exhaustive small-scope enumeration + rapidcheck call sequences vs reference encoder",
         assumptions=["CdnsEncoder::BUFFER_SIZE is taken from the header", "zlib/liblzma decoders are correct"],
         jobs=[
             dict(harness="codec", prop="c06_cell", kind="enum"),
